@@ -49,7 +49,7 @@ def check_coarse_grid(case):
     eao = eao_mod()
     out = []
     start = pd.Timestamp(case['start'])
-    if case['coarse'] == 'W':
+    if case['coarse'] == 'W' and not case.get('unaligned'):
         # align the window with the anchor of 'W' (Sunday) so that no edge steps are outside every coarse interval
         start = start - pd.Timedelta((start.dayofweek + 1) % 7, 'd')
         days = 14
@@ -66,6 +66,9 @@ def check_coarse_grid(case):
         if sorted(flat) != flat or len(set(flat)) != len(flat):
             out.append(fail('C19.coarse.disjoint_and_ordered', 'basic_classes:Timegrid.__init__', case, params, f'fine steps assigned twice / out of order: {flat[:40]}'))
         covered = set(flat)
+        if case.get('whole') and covered != set(range(tg.T)):
+            out.append(fail('C19.coarse.partitions_the_whole_window', 'basic_classes:Timegrid.__init__', case, params,
+                            f'fine steps of the window in no coarse interval: {sorted(set(range(tg.T)) - covered)[:8]} ... ({len(set(range(tg.T)) - covered)} of {tg.T})'))
         pts = pd.date_range(start=tg.start, end=tg.end, freq=case['coarse'], tz=tg.tz)
         inside = [i for i, t in enumerate(tg.timepoints) if len(pts) > 1 and pts[0] <= t < pts[-1]]
         if set(inside) != covered:
@@ -224,12 +227,27 @@ def check_split(case):
         prices['gp'] = 2. + (np.arange(tg.T) % 3)
         assets = assets + [eao.assets.Plant(name='plant', nodes=[n1, gas], min_cap=0., max_cap=2., fuel_efficiency='eff'),
                            eao.assets.SimpleContract(name='gas', nodes=gas, min_cap=0., max_cap=50., price='gp')]
+    if case.get('infeasible_interval'):
+        # a demand that cannot be served, active from the second day on: the first interval is solvable, a later one is not
+        assets = assets + [eao.assets.SimpleContract(name='load2', nodes=n2, min_cap=-5., max_cap=-5., start=start + pd.Timedelta(24, 'h'))]
     pf = eao.portfolio.Portfolio(assets)
     op, res = optimize(pf, prices, tg)
     pf2 = eao.portfolio.Portfolio(assets)
     ops = pf2.setup_split_optim_problem(prices, tg, interval_size=case['interval'])
-    rs = ops.optimize()
     params = dict(case)
+    if case.get('infeasible_interval'):
+        # C03 / C14: failure is REPORTED (a status instead of a solution), for the split problem as for the unsplit one
+        try:
+            rs = ops.optimize()
+        except Exception as e:
+            out.append(fail('C14.split.failure_of_an_interval_is_reported', 'optimization:SplitOptimProblem.optimize', case, params,
+                            f'unsplit problem reports {res if isinstance(res, str) else "a solution"}; split optimize raises {type(e).__name__}: {str(e)[:100]}'))
+            return out
+        if not isinstance(rs, str) or not isinstance(res, str):
+            out.append(fail('C14.split.failure_of_an_interval_is_reported', 'optimization:SplitOptimProblem.optimize', case, params,
+                            f'unsplit: {res if isinstance(res, str) else "solution"}, split: {rs if isinstance(rs, str) else "solution"}'))
+        return out
+    rs = ops.optimize()
     steps = sorted(set(int(t) for t in ops.mapping['time_step']))
     if steps != list(range(tg.T)):
         out.append(fail('C14.steps_refer_to_original_grid', 'portfolio:Portfolio.setup_split_optim_problem', case, params,
@@ -1717,6 +1735,8 @@ def check_coarse_kinds(case):
 
     def build(with_freq):
         kw = dict(freq=coarse) if with_freq else {}
+        if case.get('wacc'):
+            kw['wacc'] = case['wacc']
         kind = case['kind']
         if kind == 'simple':
             a = eao.assets.SimpleContract(name='x', nodes=B, price='p', min_cap=-1., max_cap=2., **kw)
@@ -1873,4 +1893,66 @@ def check_optimize_random(case):
         F('C03.success_only_if_feasible', f'optimiser returns a solution; scipy status {None if ref is None else ref.status} (no feasible point)')
     elif res.value < -ref.fun - 1e-5 * max(1., abs(ref.fun)):
         F('C03.no_better_feasible_point', f'value {res.value} < reference optimum {-ref.fun}')
+    return out
+
+
+# ------------------------------------------------------------------------------------------------ C08 assets entirely outside the horizon are inert
+def check_outside_inert(case):
+    """C08: an asset of any kind whose window lies entirely outside the horizon (before / after) changes neither the optimal value nor the
+    dispatch of anything else -- typical for rolling optimisation with a long-dated asset list."""
+    eao = eao_mod()
+    out = []
+    rng = random.Random(case['seed'])
+    T = 6
+    start = pd.Timestamp('2021-01-01')
+    tg = eao.assets.Timegrid(start, start + pd.Timedelta(T, 'h'), freq='h')
+    A, B, G = eao.assets.Node('A'), eao.assets.Node('B'), eao.assets.Node('G')
+    s_, e_ = (pd.Timestamp('2022-01-01'), pd.Timestamp('2022-01-02')) if case['where'] == 'after' else (pd.Timestamp('2020-01-01'), pd.Timestamp('2020-01-02'))
+    kind = case['kind']
+    mk = {
+        'simple': lambda: eao.assets.SimpleContract(name='x', nodes=A, price='p', min_cap=-1., max_cap=2., start=s_, end=e_),
+        'contract_take': lambda: eao.assets.Contract(name='x', nodes=A, price='p', min_cap=0., max_cap=2., start=s_, end=e_,
+                                                     min_take={'start': [s_], 'end': [e_], 'values': [5.]}),
+        'transport': lambda: eao.assets.Transport(name='x', nodes=[A, B], min_cap=0., max_cap=2., efficiency=.9, start=s_, end=e_),
+        'ext_transport': lambda: eao.assets.ExtendedTransport(name='x', nodes=[A, B], min_cap=0., max_cap=2., efficiency=.9, start=s_, end=e_),
+        'storage': lambda: eao.assets.Storage(name='x', nodes=A, size=3., cap_in=1., cap_out=1., start_level=1., end_level=1., start=s_, end=e_),
+        'chp': lambda: eao.assets.CHPAsset(name='x', nodes=[A, B, G], min_cap=1., max_cap=3., ramp=1., min_runtime=2, start_costs=1., time_already_off=1, start=s_, end=e_),
+        'plant': lambda: eao.assets.Plant(name='x', nodes=[A, G], min_cap=1., max_cap=3., start_costs=1., min_downtime=2, time_already_off=1, start=s_, end=e_),
+        'multi': lambda: eao.assets.MultiCommodityContract(name='x', nodes=[A, B], factors_commodities=[-1., .8], min_cap=0., max_cap=2., start=s_, end=e_),
+        # (the window that governs the dispatch of a scaled asset is the base asset's; the scaled asset's own one counts the fix costs)
+        'scaled': lambda: eao.assets.ScaledAsset(name='x', base_asset=eao.assets.SimpleContract(name='b', nodes=A, price='p', min_cap=-1., max_cap=1., start=s_, end=e_),
+                                                 max_scale=3., start=s_, end=e_),
+        'orderbook': lambda: eao.assets.OrderBook(name='x', nodes=A, orders=pd.DataFrame({'start': [s_], 'end': [e_], 'capa': [2.], 'price': [1.]})),
+    }
+    others = lambda: [eao.assets.SimpleContract(name='mA', nodes=A, price='p', min_cap=-3., max_cap=3.),
+                      eao.assets.SimpleContract(name='mB', nodes=B, price='q', min_cap=-1., max_cap=1.),
+                      eao.assets.Transport(name='t', nodes=[A, B], min_cap=0., max_cap=1., efficiency=.9),
+                      eao.assets.SimpleContract(name='gas', nodes=G, price='q', min_cap=0., max_cap=5.),
+                      eao.assets.Storage(name='s', nodes=A, size=2., cap_in=1., cap_out=1.)]
+    prices = {'p': np.asarray([float(rng.randint(1, 9)) for _ in range(T)]), 'q': np.asarray([float(rng.randint(1, 9)) for _ in range(T)])}
+    F = lambda name, detail: out.append(fail(name, 'portfolio:Portfolio.setup_optim_problem', case, dict(case), detail))
+    base = others()
+    r0 = optimize(eao.portfolio.Portfolio(base), prices, tg)[1]
+    assets = others()
+    x = mk[kind]()
+    assets.insert(rng.randrange(len(assets) + 1), x)
+    try:
+        pf = eao.portfolio.Portfolio(assets)
+        op, r1 = optimize(pf, prices, tg)
+    except Exception as e:
+        F('C08.outside.asset_outside_the_horizon_is_inert', f'{kind} {case["where"]} the horizon: set-up / optimisation raises {type(e).__name__}: {str(e)[:120]}')
+        return out
+    if isinstance(r0, str) or isinstance(r1, str):
+        if isinstance(r0, str) != isinstance(r1, str):
+            F('C08.outside.asset_outside_the_horizon_is_inert', f'{kind}: solvability changes ({r0 if isinstance(r0, str) else "ok"} vs {r1 if isinstance(r1, str) else "ok"})')
+        return out
+    if abs(r0.value - r1.value) > 1e-6 * max(1., abs(r0.value)):
+        F('C08.outside.asset_outside_the_horizon_is_inert', f'{kind} {case["where"]}: value {r1.value} vs {r0.value} without it')
+    try:
+        o = eao.io.extract_output(pf, op, r1)
+        cols = [c for c in o['dispatch'].columns if c.startswith('x')]
+        if cols and np.abs(o['dispatch'][cols].values.astype(float)).max() > 1e-6:
+            F('C08.outside.no_dispatch_outside_the_window', f'{kind}: reported dispatch of the outside asset is not zero')
+    except Exception as e:
+        F('C08.outside.output_can_be_extracted', f'{kind} {case["where"]}: extract_output raises {type(e).__name__}: {str(e)[:120]}')
     return out
